@@ -24,7 +24,7 @@ EXTENDS Priors, IOUtils
 CONSTANTS QNum, QShift, QDen, ENum, EShift, SNum, SDen,
           Conts,                 \* containers of the bounds objects
           Hows,                  \* "direct" | "text"
-          Depth, Export, SetWeight,
+          Depth, Export, SetWeight, RareWeight,    \* the simulator draws uniformly from the instances of the actions
           Setter
 VARIABLES main, other, hist, trail
 vars == <<main, other, hist, trail>>
@@ -42,6 +42,8 @@ ObjCalls ==
     \cup {[cls |-> c, key1 |-> "", v1 |-> 0, key2 |-> "", v2 |-> 0] : c \in UKinds}
     \cup {[cls |-> c, key1 |-> "mean", v1 |-> QMid, key2 |-> "std", v2 |-> s] : c \in {"Gaussian", "LogGaussian"}, s \in SS}
 
+\* the simulator draws uniformly from the instances of an action: the forms with few calls are repeated
+FormWeight(c) == IF c.key1 = "bounds" THEN 1 ELSE IF c.key1 = "lin_bounds" THEN 2 ELSE 6
 NF(kind, b) == [kind |-> kind, a |-> Lower(b), b |-> Upper(b)]
 Dead == [alive |-> FALSE, kind |-> "None", last |-> <<Q(0), Q(0)>>, samp |-> NoPrior, rep |-> NoPrior, ct |-> "", fresh |-> FALSE]
 \* last: the support given last in the object's own space (meaningful for the uniform kinds); ct: the container it came in
@@ -63,7 +65,7 @@ Do(e, m, o) == /\ main' = m /\ other' = o
                /\ hist' = Log(e)
                /\ trail' = IF Export THEN Append(trail, <<m, o>>) ELSE trail
 
-Init == \E c \in ObjCalls, how \in Hows, ct \in Conts :
+Init == \E c \in ObjCalls, how \in Hows, ct \in Conts : \E rep \in 1..(IF Export THEN FormWeight(c) ELSE 1) :
            /\ (how = "text" \/ c.key1 = "" \/ c.cls \notin UKinds) => ct = "tuple"        \* no container of the caller's: one instance
            /\ main = Made(c, IF how = "text" THEN "" ELSE ct)
            /\ other = Dead
@@ -72,32 +74,37 @@ Init == \E c \in ObjCalls, how \in Hows, ct \in Conts :
 SetMain == \E b \in Pairs(QS), ct \in Conts, rep \in 1..SetWeight :
               /\ main.kind \in UKinds
               /\ Do(Step("set", "main", b, ct, NoCall, ""), SetOn(main, b, ct), Bystander(other, main.kind, b))
-SetOther == \E b \in Pairs(QS), ct \in Conts :
+SetOther == \E b \in Pairs(QS), ct \in Conts, rep \in 1..SetWeight :
               /\ other.alive /\ other.kind \in UKinds
               /\ Do(Step("set", "other", b, ct, NoCall, ""), Bystander(main, other.kind, b), SetOn(other, b, ct))
-Make == \E c \in ObjCalls, how \in Hows, ct \in Conts :
+Make == \E c \in ObjCalls, how \in Hows, ct \in Conts : \E rep \in 1..(IF Export THEN FormWeight(c) ELSE 1) :
               /\ (how = "text" \/ c.key1 = "" \/ c.cls \notin UKinds) => ct = "tuple"
               /\ Do(Step("make", "other", NoB, IF how = "text" THEN "" ELSE ct, c, how), main, Made(c, IF how = "text" THEN "" ELSE ct))
-Reuse == \E who \in {"main", "other"}, rep \in 1..SetWeight :
+Reuse == \E who \in {"main", "other"}, rep \in 1..RareWeight :
               LET o == IF who = "main" THEN main ELSE other IN
               /\ o.alive /\ o.ct \in Writable /\ o.fresh
               /\ Do(Step("reuse", who, NoB, o.ct, NoCall, ""), IF who = "main" THEN Rewritten(main) ELSE main,
                     IF who = "other" THEN Rewritten(other) ELSE other)
-Look == \E rep \in 1..SetWeight : Do(Step("look", "main", NoB, "", NoCall, ""), main, other)
+Look == \E rep \in 1..RareWeight : Do(Step("look", "main", NoB, "", NoCall, ""), main, other)
 Next == SetMain \/ SetOther \/ Make \/ Reuse \/ Look
 Spec == Init /\ [][Next]_vars
 Bound == Len(hist) <= Depth
 
 \* ---- the clauses
-ZOk == (~other.alive) => ZAssumption
+\* (cheap on purpose: the simulator evaluates the invariants on every successor it generates)
 ObjOk(o) == o.alive =>
     /\ o.samp = o.rep
-    /\ o.kind \in UKinds => (o.samp = NF(o.kind, o.last) /\ Monotone(o.samp)
-                             /\ Sample(o.samp, 0) = RMin(o.last[1], o.last[2]) /\ Sample(o.samp, UN) = RMax(o.last[1], o.last[2]))
     /\ o.samp.kind = o.kind
+    /\ o.kind \in UKinds => /\ o.samp = NF(o.kind, o.last)
+                             /\ o.samp.a = RMin(o.last[1], o.last[2]) /\ o.samp.b = RMax(o.last[1], o.last[2])
+                             /\ RLt(o.samp.a, o.samp.b)
 ObjectInv == ObjOk(main) /\ ObjOk(other)
-FitsInv == \A o \in {main, other} : o.alive => \A k \in Grid(o.samp) : Fits(Sample(o.samp, k))
-
+\* the clauses of Priors.tla on the support the object has now (exhaustive configs)
+\* (every value `main` can take is reached while `other` does not exist yet: once per value is enough)
+ClausesInv == (~other.alive /\ main.kind \in UKinds) =>
+                  /\ Monotone(main.samp) /\ InverseCDF(main.samp)
+                  /\ Sample(main.samp, 0) = RMin(main.last[1], main.last[2]) /\ Sample(main.samp, UN) = RMax(main.last[1], main.last[2])
+                  /\ \A k \in Grid(main.samp) : Fits(Sample(main.samp, k))
 \* ---- export: the walk with what either object must show after every step
 Recv(p) == [k \in 1..(UN + 1) |-> IF (k - 1) \in Grid(p) THEN ToModel(p, Sample(p, k - 1)) ELSE [sp |-> "none", x |-> Q(0)]]
 ObsOf(o) == IF o.alive THEN [alive |-> TRUE, p |-> o.samp, rep |-> o.rep, space |-> SpaceOf(o.samp.kind), last |-> o.last, recv |-> Recv(o.samp)]
